@@ -72,8 +72,26 @@ def glob_match(pat, rel):
     return pat == rel
 
 
-def present_files(ws, extra=None):
+def real_path(ws, p):
+    """the real file behind a path that goes through a symlinked directory of the workspace"""
+    for lk, tg in ws.get("links", {}).items():
+        if p.startswith(lk + "/"):
+            return tg + p[len(lk):]
+    return p
+
+
+def all_files(ws):
+    """source files incl. the paths under which they are also visible through symlinked directories"""
     files = dict(ws["files"])
+    for lk, tg in ws.get("links", {}).items():
+        for p, c in ws["files"].items():
+            if p.startswith(tg + "/"):
+                files[lk + p[len(tg):]] = c
+    return files
+
+
+def present_files(ws, extra=None):
+    files = all_files(ws)
     if extra:
         files.update(extra)
     return files
@@ -200,7 +218,7 @@ def cmd_text(ws, l):
     for g in t["globs"]:
         if "**" in g:
             base, _, tail = g.partition("/**/")
-            lst.append("find " + q(base) + " -type f -name " + q(tail) + " 2>/dev/null || true")
+            lst.append("find -L " + q(base) + " -type f -name " + q(tail) + " 2>/dev/null || true")
         elif any(ch in g for ch in "*?["):
             lst.append("ls -1 " + g + " 2>/dev/null || true")
         else:
@@ -299,8 +317,27 @@ def write_file(root, rel, content):
         fh.write(content.encode("latin-1"))
 
 
+def sync_links(root, old, new):
+    ol, nl = (old.get("links", {}) if old else {}), new.get("links", {})
+    for lk in set(ol) - set(nl):
+        try:
+            os.remove(os.path.join(root, lk))
+        except OSError:
+            pass
+    for lk, tg in nl.items():
+        full = os.path.join(root, lk)
+        if ol.get(lk) == tg and os.path.islink(full):
+            continue
+        os.makedirs(os.path.dirname(full), exist_ok=True)
+        if os.path.islink(full):
+            os.remove(full)
+        os.makedirs(os.path.join(root, tg), exist_ok=True)
+        os.symlink(os.path.relpath(os.path.join(root, tg), os.path.dirname(full)), full)
+
+
 def sync_ws(root, old, new):
     """bring the source side of the real workspace from `old` (or nothing) to `new`"""
+    sync_links(root, old, new)
     ob, nb = (build_files(old) if old else {}), build_files(new)
     of, nf = (old["files"] if old else {}), new["files"]
     for p in set(ob) - set(nb) | set(of) - set(nf):
@@ -583,14 +620,15 @@ def model_request(hist, fixes=ALL_FIXES, force_minimal=None):
     ws = hist["ws"]
     watch = watch_paths(hist)
     steps = [{"k": "edit", "targets": model_targets(ws, fixes), "writes": [], "tampers": []}]
-    files = [[p, c] for p, c in sorted(ws["files"].items())]
+    files = [[p, c] for p, c in sorted(all_files(ws).items())]
     for s in hist["steps"]:
         if s["k"] == "edit":
             writes = []
-            for p in set(ws["files"]) - set(s["ws"]["files"]):
+            fa, fb = all_files(ws), all_files(s["ws"])
+            for p in set(fa) - set(fb):
                 writes.append([p, None])
-            for p, c in s["ws"]["files"].items():
-                if ws["files"].get(p) != c:
+            for p, c in fb.items():
+                if fa.get(p) != c:
                     writes.append([p, c])
             for w in s.get("writes", []):
                 if isinstance(w, dict):
@@ -681,10 +719,10 @@ def compare(hist, real, model, multiset=True):
 # ------------------------------------------------------------------------------------------------
 
 def gen_ws(rng, n=None, aliases=True, dirs=True, multi_out=True, nocache_p=0.0, checks_p=0.0, split_p=0.1, shared_p=0.25, dir_p=0.3,
-           outless_p=0.08, tool_p=0.0, multicheck=False, alias_p=0.35, alias2_p=0.2):
+           outless_p=0.08, tool_p=0.0, multicheck=False, alias_p=0.35, alias2_p=0.2, link_p=0.5, kind_choices=None):
     """layered DAG of n targets (dependencies point to earlier targets), 1-2 targets per package"""
     n = n or rng.randint(2, 6)
-    ws = {"targets": {}, "aliases": {}, "files": {}}
+    ws = {"targets": {}, "aliases": {}, "files": {}, "links": {}}
     labels = []
     pkgs = []
     for i in range(n):
@@ -696,7 +734,7 @@ def gen_ws(rng, n=None, aliases=True, dirs=True, multi_out=True, nocache_p=0.0, 
         name = "t%d" % i
         l = lab(pkg, name)
         globs = []
-        kind = rng.choice(["star", "src", "rec", "explicit", "none", "star+explicit"])
+        kind = rng.choice(kind_choices or ["star", "src", "rec", "explicit", "none", "star+explicit"])
         nm = "i%d" % i
         if kind in ("star", "star+explicit"):
             globs.append(nm + "_*.in")
@@ -710,6 +748,11 @@ def gen_ws(rng, n=None, aliases=True, dirs=True, multi_out=True, nocache_p=0.0, 
             globs.append("src%d/**/*.in" % i)
             ws["files"]["%s/src%d/f0.in" % (pkg, i)] = "v%d\n" % rng.randint(0, 99)
             ws["files"]["%s/src%d/d/f1.in" % (pkg, i)] = "v%d\n" % rng.randint(0, 99)
+        if kind == "rec" and rng.random() < link_p:
+            # part of the tree under the glob is a symlinked directory (its files live elsewhere in the workspace)
+            ws.setdefault("links", {})["%s/src%d/lk" % (pkg, i)] = "shared%d" % i
+            ws["files"]["shared%d/g0.in" % i] = "v%d\n" % rng.randint(0, 99)
+            ws["files"]["shared%d/sub/g1.in" % i] = "v%d\n" % rng.randint(0, 99)
         if kind in ("explicit", "star+explicit"):
             globs.append("e%d.txt" % i)
             ws["files"]["%s/e%d.txt" % (pkg, i)] = "v%d\n" % rng.randint(0, 99)
@@ -796,7 +839,8 @@ def gen_ws(rng, n=None, aliases=True, dirs=True, multi_out=True, nocache_p=0.0, 
 def src_files_of(ws, l):
     t = ws["targets"][l]
     pre = t["pkg"] + "/" if t["pkg"] else ""
-    return [pre + r for r in resolved_inputs(ws, l) if pre + r in ws["files"]]
+    af = all_files(ws)
+    return [pre + r for r in resolved_inputs(ws, l) if pre + r in af]
 
 
 def gen_edit(rng, ws, kinds=None):
@@ -806,12 +850,12 @@ def gen_edit(rng, ws, kinds=None):
     l = rng.choice(labels)
     t = ws["targets"][l]
     kinds = kinds or ["content", "content", "addfile", "rmfile", "rename", "salt", "salt", "outs", "fp", "adddep", "rmdep",
-                      "realias", "viaalias", "nocache", "swapin", "exclfile"]
+                      "realias", "viaalias", "nocache", "swapin", "exclfile", "linkfile"]
     k = rng.choice(kinds)
     pre = t["pkg"] + "/" if t["pkg"] else ""
     srcs = src_files_of(ws, l)
     if k == "content" and srcs:
-        p = rng.choice(srcs)
+        p = real_path(ws, rng.choice(srcs))
         if rng.random() < 0.06:
             n = rng.choice([1023, 1024, 4097, 65537])
             ws["files"][p] = "B" * n + "%d\n" % rng.randint(0, 9)
@@ -829,13 +873,15 @@ def gen_edit(rng, ws, kinds=None):
                 ws["files"][pre + base] = "a%d\n" % rng.randint(0, 99)
                 return ws, [], "add %s" % (pre + base)
     if k == "rmfile" and len(srcs) > 0:
-        p = rng.choice(srcs)
+        p = real_path(ws, rng.choice(srcs))
         del ws["files"][p]
         if p[len(pre):] in t["globs"]:
             return None
         return ws, [], "remove %s" % p
     if k == "rename" and srcs:
         p = rng.choice(srcs)
+        if p not in ws["files"]:
+            return None
         if p[len(pre):] in t["globs"] or "*" not in "".join(t["globs"]):
             return None
         d, _, fn = p.rpartition("/")
@@ -907,6 +953,27 @@ def gen_edit(rng, ws, kinds=None):
                 return ws, [], "content of %s (reaches %s only through alias %s)" % (p, x, a)
             ws["targets"][d]["salt"] = "s%d" % rng.randint(100, 199)
             return ws, [], "command of %s (reaches %s through alias %s)" % (d, x, a)
+        return None
+    if k == "linkfile":
+        # content / presence of a file that a glob reaches only through a symlinked directory
+        lks = sorted(ws.get("links", {}).items())
+        if not lks:
+            return None
+        lk, tg = rng.choice(lks)
+        under = sorted(p for p in ws["files"] if p.startswith(tg + "/"))
+        r = rng.random()
+        if r < 0.6 and under:
+            p = rng.choice(under)
+            ws["files"][p] = "k%d\n" % rng.randint(100, 999)
+            return ws, [], "content of %s (matched through the symlinked directory %s)" % (p, lk)
+        if r < 0.8:
+            p = "%s/n%d.in" % (tg, rng.randint(0, 99))
+            ws["files"][p] = "a%d\n" % rng.randint(0, 99)
+            return ws, [], "add %s (visible through %s)" % (p, lk)
+        if len(under) > 1:
+            p = rng.choice(under)
+            del ws["files"][p]
+            return ws, [], "remove %s (visible through %s)" % (p, lk)
         return None
     if k == "swapin":
         sp = [x for x in labels if ws["targets"][x].get("split")]
@@ -1056,6 +1123,8 @@ def gen_history(rng, family="mixed", nsteps=None, full=False, minimal=None):
         kw.update(shared_p=1.0)
     if family == "dirs":
         kw.update(dir_p=0.8)
+    if family == "links":
+        kw.update(link_p=1.0, kind_choices=["rec", "rec", "rec", "src", "star"])
     if family == "aliaswipe":
         kw.update(alias_p=0.8, alias2_p=0.6)
     if family == "lostblob":
@@ -1344,6 +1413,8 @@ def gen_history(rng, family="mixed", nsteps=None, full=False, minimal=None):
             kinds = None
             if family in ("alias", "aliaswipe"):
                 kinds = ["viaalias", "viaalias", "realias", "adddep", "content"]
+            if family == "links":
+                kinds = ["linkfile", "linkfile", "linkfile", "content", "salt"]
             if family == "tool":
                 kinds = ["toolcontent", "toolcontent", "toolcontent", "content", "salt"]
             if family == "swap":
@@ -1683,7 +1754,8 @@ def tkey(ws, l):
     """everything of a target that enters its own key (not its dependencies' outputs)"""
     t = ws["targets"][l]
     pre = t["pkg"] + "/" if t["pkg"] else ""
-    ins = [(r, ws["files"].get(pre + r)) for r in resolved_inputs(ws, l)]
+    af = all_files(ws)
+    ins = [(r, af.get(pre + r)) for r in resolved_inputs(ws, l)]
     return json.dumps([cmd_text(ws, l), ins, [(o["dir"], o["rel"]) for o in sorted_outs(t)], sorted(t.get("fp", {}).items()),
                        rdeps(ws, l), bool(t.get("nocache")), t.get("checks", [])], sort_keys=True)
 
@@ -1692,7 +1764,8 @@ def state_key(ws, l):
     """what the cache key of a dependency-free target is made of (checks and tags are not part of it)"""
     t = ws["targets"][l]
     pre = t["pkg"] + "/" if t["pkg"] else ""
-    ins = [(r, ws["files"].get(pre + r)) for r in resolved_inputs(ws, l)]
+    af = all_files(ws)
+    ins = [(r, af.get(pre + r)) for r in resolved_inputs(ws, l)]
     return json.dumps([cmd_text(ws, l), ins, [(o["dir"], o["rel"]) for o in sorted_outs(t)], sorted(t.get("fp", {}).items())], sort_keys=True)
 
 
